@@ -36,6 +36,10 @@ class MRun:
         """setup(st, B) must push the initial call; returns list of outcomes ([] when inconclusive)"""
         st = V.State()
         B = Builder(self.L, st)
+        # a fresh solver per exploration: one z3 solver object that has seen the string constants of several kernels gets
+        # slower by orders of magnitude (measured: 7 s -> 700 s for the same kernel)
+        self.vm.solver = z3.Solver()
+        self.vm.solver.set('timeout', 30000)
         try:
             ctx = setup(st, B)
             outs = self.vm.run(st, limit_paths=limit_paths)
